@@ -216,7 +216,7 @@ def check_state(f, t, y, cfg=None):
         for c in dN:
             for k in range(len(dN[c])):
                 wantN = frem * flux if (c == cls and k == idx[0]) else 0.0
-                if abs(dN[c][k] - wantN) > 1e-12 * flux or abs(dM[c][k] - m_rem * wantN) > 1e-12 * flux * max(m_rem, 1):
+                if not (abs(dN[c][k] - wantN) <= 1e-12 * flux and abs(dM[c][k] - m_rem * wantN) <= 1e-12 * flux * max(m_rem, 1)):
                     return {"clause": "every leaving star re-appears in the IFMR's class and bin, scaled by the retention fraction, with the IFMR mass",
                             "class": c, "bin": k, "observed": [repr(float(dN[c][k])), repr(float(dM[c][k]))], "expected": [repr(wantN), repr(m_rem * wantN)]}
         if m_rem > mto * (1 + 1e-12):
@@ -247,7 +247,7 @@ def check_rows(res):
     nbins = len(res["Ns"][0])
     budget = 2e-3 * N0 + 0.1 * nbins          # integrator accuracy (atol=rtol=1e-5 per step) + empty-bin residue
     for i in order:
-        if abs(res["Ntot"][i] - N0) > budget:
+        if not abs(res["Ntot"][i] - N0) <= budget:
             return {"clause": "with all remnants retained and no escape the number of objects stays N0", "row": int(i),
                     "observed": repr(res["Ntot"][i]), "expected": repr(N0), "budget": budget}
     for a, b in zip(order[:-1], order[1:]):
